@@ -5,6 +5,46 @@ import json, os, re, sys
 M = sys.argv[1]
 lo, hi = (int(sys.argv[2]), int(sys.argv[3])) if len(sys.argv) > 3 else (1, 99)
 DESC = {
+ "C01-8": "void-ness cached at construction (stale after `.name` is reassigned)", "C01-9": "`html_escape` leaves numeric character references alone",
+ "C01-10": "void table re-packed with one comma lost (`trackwbr`)", "C01-11": "`HTMLDocument` rebuilds `<head>` and drops its attributes",
+ "C02-8": "precompiled fast-path pattern `[&<]` misses a lone `>`", "C02-9": "escape flag became process-wide state (not restored after an exception)",
+ "C02-10": "numbers stored as `HTML()`", "C02-11": "`HTMLDependency` marks every top-level string of `head=` as markup",
+ "C03-8": "`x in (None, False)` drops numeric zero", "C03-9": "merge escaping moved into `HTML.__add__` only (`__radd__` left behind)",
+ "C03-10": "attribute escape table reordered: CR/LF double-escaped", "C03-11": "`consolidate_attrs` strips the `HTML()` marking",
+ "C04-8": "`HTMLTextDocument.render` substitutes with `re.sub` (backslashes in trusted markup)", "C04-9": "raw-text decision cached at construction",
+ "C04-10": "empty-operand fast path in `HTML.__add__`/`__radd__`", "C04-11": "display hook drops the `HTML()` wrapper around `_repr_html_()` output",
+ "C05-8": "merged leaf branch loses the state reset for `_repr_html_` objects", "C05-9": "raw-text tags render children with the default `add_ws`",
+ "C05-10": "`HTMLDocument` rebuilds a lone `<body>` without its whitespace flag", "C05-11": "`Tag.tagify` promotes an inline tag that holds a block child",
+ "C06-8": "`first_child` flag replaced by `if html_ and ...`", "C06-9": "closing eol only `if not html_.endswith(eol)`",
+ "C06-10": "json mode adds a separator even without dependencies", "C06-11": "`bdo` dropped from the inline table (generator script and tags.py)",
+ "C07-8": "single-text test reads the unfiltered first child", "C07-9": "`HTMLDependency` gains `_repr_html_`",
+ "C07-10": "JSX child loop filters `HTMLDependency` instead of all metadata", "C07-11": "charset de-duplication looks at the raw first child of `<head>`",
+ "C08-8": "document html attributes written into the caller's `<html>` tag (two edits)", "C08-9": "`JSXTag.tagify` hands out the component's own dependencies",
+ "C08-10": "`Tag._repr_html_` renders the un-tagified tree", "C08-11": "`TagList.__eq__` removed (UserList equality)",
+ "C09-8": "`HTML()` expansion spliced per character", "C09-9": "un-expanded object silently dropped by the frame's child filter",
+ "C09-10": "document case chosen before expansion (helper applied to stored content)", "C09-11": "tagifiable prop values of JSX tags not walked",
+ "C10-8": "release-tuple comparison on version ties", "C10-9": "void-element fast path in `Tag.get_dependencies`",
+ "C10-10": "`_validate_dicts` via `all(...)` stops at the first item", "C10-11": "JSX component de-duplicates metadata by `repr()`",
+ "C11-8": "`HTMLDocument.render` follows the global json display mode", "C11-9": "void-element fast path in dependency collection",
+ "C11-10": "`Tag.tagify` returns self for childless tags + head not copied (two sites)", "C11-11": "constructor keeps the caller's `TagList`",
+ "C12-8": "existence check merged into the copy loop", "C12-9": "`save_html` skips a dependency whose versioned directory exists",
+ "C12-10": "`include_version` lost on the `<html>`-root branch", "C12-11": "memoised source-directory lookup (`lru_cache`)",
+ "C13-8": "json-mode fast path writes the script without the `</` escape", "C13-9": "placeholder substituted with `re.sub`",
+ "C13-10": "extracted dependencies resolved by name when stored", "C13-11": "listing escaped in only one of the two sibling sites",
+ "C14-8": "`id()` cycle guard in `flatten` drops repeated containers", "C14-9": "`insert` back-to-front at the same index",
+ "C14-10": "`is_tag_child` made deep with the wrong element predicate", "C14-11": "lazy normaliser + streaming `extend`",
+ "C15-8": "name normaliser steps swapped (strips a trailing hyphen)", "C15-9": "dropped-values table compared with `in`",
+ "C15-10": "constructor fast path for one mapping replaces instead of joining", "C15-11": "shared split helper skips `None`",
+ "C16-8": "css name conversion by one boundary regex", "C16-9": "class tokens split on single spaces only",
+ "C16-10": "`Tag.__copy__` copies attrs with `dict.copy()` (plain dict)", "C16-11": "duplicate-class guard by substring in `update`",
+ "C17-8": "cached hook wrapper leaks through copies", "C17-9": "`__copy__` clears the original's saved hook through `self.__dict__`",
+ "C17-10": "\"nothing to display\" test moved ahead of the type dispatch", "C17-11": "no hand-over when the block is left by a non-`Exception`",
+ "C18-8": "`remove_class` through a set", "C18-9": "`HTMLTextDocument._deps` became a shared class-level list",
+ "C18-10": "`head_content` names the payload with `str(head)` (mode dependent)", "C18-11": "merge helper memoised with `lru_cache` (`HTML` == `str`)",
+ "C19-8": "`svg.svg` default flipped", "C19-9": "`_add_ws` check `x not in (True, False)`",
+ "C19-10": "lower-case-only tag-name regex rejects camelCase SVG names", "C19-11": "star import + `hr` lost from `tags.__all__`",
+ "C20-8": "allow-list check turned into a substring test", "C20-9": "numeric-array fast path swallows booleans",
+ "C20-10": "`JSXTag.__len__` + skipping falsy prop values", "C20-11": "`JSXTag.__copy__` copies only dict/list fields",
  "C01-4": "`_NO_ESCAPE_TAG_NAMES` widened to textarea and title", "C01-5": "`html_escape` remembers \"plain\" strings regardless of the mode",
  "C01-6": "void-name table rebuilt from a split string with a missing separator (`sourcetrack`)", "C01-7": "attribute-name normaliser made non-idempotent (copy re-normalises stored names)",
  "C02-4": "numbers stored as pre-escaped `HTML()`", "C02-5": "\"idempotent\" `html_escape` skips `&` that starts a known reference",
